@@ -541,6 +541,21 @@ def split_rule(repo, rep):
             for k, e in enumerate(c.args[0].elts):
                 if isinstance(e, ast.Call) and call_name(e) == "self._interp_freq" and e.args:
                     sides[unparse(e.args[0])] = k
+    # each cutoff is inserted whenever IT is given and off-grid: its insertion may not depend on the other limit (an `elif` makes the upper
+    # cutoff wait for the lower one not to have been inserted)
+    from ..astutil import path_conditions
+    for c in ast.walk(sp.node):
+        if isinstance(c, ast.Call) and call_name(c) == "self._interp_freq" and c.args and unparse(c.args[0]) in ("fmin", "fmax"):
+            lim = unparse(c.args[0])
+            other_lim = "fmax" if lim == "fmin" else "fmin"
+            pcs = path_conditions(sp.node, c)
+            dep = [t for t, truth in pcs if any(isinstance(x, ast.Name) and x.id == other_lim for x in ast.walk(t))]
+            if dep:
+                rep.fail("R-C09-4", sp.file, c.lineno, sp.qualname, f"self._interp_freq({lim}) under `{unparse(dep[0])[:70]}`",
+                         f"the interpolated bin at {lim} is only inserted depending on a test of {other_lim}: with both cutoffs given and off-grid one of "
+                         "them is never inserted and the band loses the energy between the last grid frequency and that cutoff")
+            else:
+                rep.ok("R-C09-4", f"{sp.file}:{c.lineno} split", f"self._interp_freq({lim})", f"guarded by {lim} (and interpolate) only")
     label_slice = any(isinstance(c, ast.Call) and isinstance(c.func, ast.Attribute) and c.func.attr == "sel" and
                       any(k.arg == "freq" and isinstance(k.value, ast.Call) and call_name(k.value) == "slice" and
                           [unparse(a_) for a_ in k.value.args] == ["fmin", "fmax"] for k in c.keywords) for c in ast.walk(sp.node))
